@@ -747,6 +747,73 @@ static void space_huge(void)
 	}
 }
 
+/* ------------------------------------------------------------------ level-1 skip size against its extended headers (C16) */
+
+/* A level-1 header with two or three extended headers, member data and a following member; the skip-size field (which counts
+ * the extended headers and the data) set to EVERY value from 0 to a little past the true one, checksum re-made.  Whatever the
+ * library makes of an inconsistent value, every stream kind must see the same members. */
+static void space_l1skip(void)
+{
+	static uint8_t arc[600], t[600];
+	int shape, v, kind, mode;
+	for (shape = 0; shape < 4; ++shape) {
+		ref_hdr f;
+		size_t hl, n = 0;
+		uint32_t truev;
+		static const uint8_t perm[2] = { 0xA4, 0x81 }, ug[4] = { 1, 0, 2, 0 }, ts[4] = { 0x00, 0x5C, 0x3D, 0x4B };
+		memset(&f, 0, sizeof f);
+		f.level = 1; memcpy(f.method, "-lh0-", 5); f.name = (const uint8_t *) "a.txt"; f.name_len = 5; f.area = (const uint8_t *) ""; f.os = 'U';
+		f.time_raw = 0x3C21A000u;
+		f.ext[f.next].type = 2; f.ext[f.next].data = (const uint8_t *) "dir\xff" "sub\xff" "deeper\xff"; f.ext[f.next].len = 15; ++f.next;
+		if (shape >= 1) { f.ext[f.next].type = 0x50; f.ext[f.next].data = perm; f.ext[f.next].len = 2; ++f.next; }
+		if (shape >= 2) { f.ext[f.next].type = 0x51; f.ext[f.next].data = ug; f.ext[f.next].len = 4; ++f.next; f.ext[f.next].type = 0x54; f.ext[f.next].data = ts; f.ext[f.next].len = 4; ++f.next; }
+		if (shape == 3) {
+			/* the last extended header (a comment) holds the bytes of a complete small member: a skip that went backwards by
+			 * the right amount would find it */
+			static uint8_t inner[80];
+			ref_hdr g;
+			size_t il;
+			memset(&g, 0, sizeof g);
+			g.level = 0; memcpy(g.method, "-lh0-", 5); g.name = (const uint8_t *) "INNER"; g.name_len = 5; g.area = (const uint8_t *) "";
+			g.packed = g.size = 3; g.crc = ref_crc16(0, (const uint8_t *) "abc", 3);
+			il = ref_hdr_encode(&g, inner, sizeof inner);
+			memcpy(inner + il, "abc", 3); il += 3;
+			f.ext[f.next].type = 0x3F; f.ext[f.next].data = inner; f.ext[f.next].len = il; ++f.next;
+		}
+		f.packed = f.size = 5; f.crc = ref_crc16(0, (const uint8_t *) "hello", 5);
+		hl = ref_hdr_encode(&f, arc, sizeof arc);
+		memcpy(arc + hl, "hello", 5); n = hl + 5;
+		truev = (uint32_t) arc[7] | ((uint32_t) arc[8] << 8);
+		/* a following member */
+		{
+			ref_hdr g;
+			memset(&g, 0, sizeof g);
+			g.level = 0; memcpy(g.method, "-lh0-", 5); g.name = (const uint8_t *) "GHOST.TXT"; g.name_len = 9; g.area = (const uint8_t *) "";
+			g.packed = g.size = 5; g.crc = f.crc;
+			n += ref_hdr_encode(&g, arc + n, sizeof arc - n);
+			memcpy(arc + n, "hello", 5); n += 5;
+		}
+		for (v = 0; v <= (int) truev + 12; ++v)
+		for (mode = 0; mode < 2; ++mode) {
+			obs_t o[K_COUNT];
+			unsigned sum = 0;
+			size_t q;
+			if (!vf_case("level-1 header with %d extended headers (true skip size %u): skip size %d, walk %d, all stream kinds", f.next, truev, v, mode)) continue;
+			memcpy(t, arc, n);
+			t[7] = (uint8_t) v; t[8] = (uint8_t) (v >> 8); t[9] = 0; t[10] = 0;
+			for (q = 2; q < (size_t) t[0] + 2; ++q) sum += t[q];
+			t[1] = (uint8_t) sum;
+			for (kind = 0; kind < K_COUNT; ++kind) walk(kind, t, n, mode, 4096, &o[kind]);
+			for (kind = 1; kind < K_COUNT; ++kind)
+				if (o[kind].hang != 1 && obs_hash(&o[kind]) != obs_hash(&o[0]))
+					vf_viol("c16-kinds-differ", "%s yields %d members, %s yields %d (or differing headers/data)", KIND_NAME[kind], o[kind].members, KIND_NAME[0], o[0].members);
+			if ((uint32_t) v == truev && o[0].members != 2) vf_viol("c16-member-lost", "the consistent archive yields %d members instead of 2", o[0].members);
+			vf_outcome(obs_hash(&o[0]));
+			vf_nontrivial(vf_mix(shape * 4096 + v, mode) + 17);
+		}
+	}
+}
+
 /* ------------------------------------------------------------------ work proportional to the bytes present (C13) */
 
 #include <time.h>
@@ -1151,6 +1218,7 @@ int main(int argc, char **argv)
 	else if (!strcmp(VF.space, "verdict")) space_verdict();
 	else if (!strcmp(VF.space, "work")) space_work();
 	else if (!strcmp(VF.space, "huge")) space_huge();
+	else if (!strcmp(VF.space, "l1skip")) space_l1skip();
 	else if (!strcmp(VF.space, "mutate")) space_mutate();
 	else { fprintf(stderr, "unknown space %s\n", VF.space); return 2; }
 	vf_done();
